@@ -303,3 +303,38 @@ def histogram(items):
     for x in items:
         h[x] = h.get(x, 0) + 1
     return dict(sorted(h.items(), key=lambda kv: (-kv[1], str(kv[0]))))
+
+
+# Presentation of member collections.  The library documents "an iterable of node ids"; a list, a tuple, a
+# one-shot iterator and a generator holding the same ids are the same argument, and the model takes the list.
+# When ITER_SALT is an int the implementation is handed one of these (chosen by a hash of the ids and the
+# salt, so that a replay with the same salt presents them the same way).
+ITER_SALT = None
+
+def members(ms):
+    ms = list(ms)
+    if ITER_SALT is None:
+        return ms
+    import zlib
+    k = zlib.crc32(repr((ms, ITER_SALT)).encode()) % 5
+    if k == 0:
+        return ms
+    if k == 1:
+        return tuple(ms)
+    if k == 2:
+        return iter(ms)
+    if k == 3:
+        return (x for x in ms)
+    return iter(tuple(ms))
+
+
+class presenting:
+    """with presenting(salt): member collections are presented as lists/tuples/iterators (salt None = lists)."""
+    def __init__(self, salt):
+        self.salt = salt
+    def __enter__(self):
+        global ITER_SALT
+        self.old, ITER_SALT = ITER_SALT, self.salt
+    def __exit__(self, *a):
+        global ITER_SALT
+        ITER_SALT = self.old
